@@ -460,6 +460,10 @@ def check_c10(tier: str) -> int:
                     for st in sts:
                         inst.zone_status[st.group_number if gen == 4 else st.zone_number] = st
                     cls = inst.m["zstat"].GroupStatusMessage if gen == 4 else inst.m["zstat"].ZoneStatusMessage
+                    free = [x for x in range(16) if x not in inst.zones]
+                    if free and rng.random() < 0.5:      # records about zones the console never named, anywhere in the frame
+                        for _u in range(rng.choice([1, 2])):
+                            sts.insert(rng.randrange(len(sts) + 1), rand_zone_status(inst, rng, rng.choice(free)))
                     msg = inst.wrap(cls(sts))
                 elif k == 2:
                     t = inst.m["tstat"]
@@ -568,15 +572,15 @@ def check_c12(tier: str) -> int:
         last_timer = {n: (inst.timers[n] if gen == 5 or n < 4 else None) for n in ids}
         last_err = {n: None for n in ids}
         last_ver = inst.version
-        for _ in range(rng.choice([6, 12, 25])):
+        for _ in range(rng.choice([8, 16, 30])):
             k = rng.randrange(9)
             if k < 3:
                 kind = rng.randrange(8)
                 ent = rng.choice(zids) if kind in (0, 1) and zids else (rng.choice(ids) if kind in (2, 3, 4, 5) else 0)
                 if kind in (0, 1) and not zids:
                     continue
-                n = {0: rng.randrange(0, 6), 1: rng.randrange(0, 6), 2: rng.randrange(10, 16), 3: rng.randrange(10, 16),
-                     4: rng.randrange(10, 18), 5: rng.randrange(10, 18), 6: rng.randrange(30, 34), 7: rng.randrange(30, 34)}[kind]
+                n = {0: rng.randrange(0, 3), 1: rng.randrange(0, 3), 2: rng.randrange(10, 13), 3: rng.randrange(10, 13),
+                     4: rng.randrange(10, 14), 5: rng.randrange(10, 14), 6: rng.randrange(30, 32), 7: rng.randrange(30, 32)}[kind]
                 script.append(("sub", kind, ent, n))
                 ref.sub(kind, ent, n)
                 expect.append([])
@@ -598,6 +602,23 @@ def check_c12(tier: str) -> int:
                     last_err[n] = None
                 dist["ac-frame-" + ("changed" if changed else "repeat")] += 1
                 last_ac[n] = st
+            elif k == 7 and rng.random() < 0.5:
+                n = rng.choice(ids)
+                if gen == 4 and n > 3:
+                    continue
+                t = inst.m["tstat"]
+                tm = (t.AcTimerStatusData(n, t.AcTimerState(rng.random() < 0.5, rng.randrange(24), rng.randrange(60)),
+                                          t.AcTimerState(rng.random() < 0.5, rng.randrange(24), rng.randrange(60)))
+                      if rng.random() < 0.6 else last_timer[n])
+                inst.timers[n] = tm
+                script.append(("frame", 0xB0, inst.timer_message(only={n})))
+                if gen == 4:
+                    # the AirTouch 4 frame always carries all four timers: the others are repeats
+                    expect.append(ref.ac_changed(n) if tm != last_timer[n] else [])
+                else:
+                    expect.append(ref.ac_changed(n) if tm != last_timer[n] else [])
+                dist["timer-frame-" + ("changed" if tm != last_timer[n] else "repeat")] += 1
+                last_timer[n] = tm
             elif k == 7:
                 n = rng.choice(ids)
                 text = rng.choice([None, "E1", "E2"])
@@ -709,6 +730,41 @@ def check_c14(tier: str) -> int:
                     ck.violation("a refresh that returned unchanged data caused notifications", dict(replay, failure=f"invoked with {calls[:6]}"))
         finally:
             rig.close()
+        # (a') ten commands pending at the reconnection (the send queue is full), then an ordinary outage
+        if i % 6 in (0, 3):
+            rig = console.ApiRig(inst, rng, record_sends=True)
+            try:
+                r, _ = rig.init()
+                if r == ("ok", True):
+                    ck.count()
+                    dist[f"at{gen}_queue_full_then_second_outage"] += 1
+                    ac = rig.at.air_conditioners[0]
+                    rig.net.accept = False
+                    rig.net.current().transport.peer_reset()
+                    rig.pump()
+                    for j in range(10):
+                        rig.run(ac.set_target_temperature(20 + j % 5))
+                    mark = len(rig.console.requests)
+                    rig.net.accept = True
+                    rig.advance(3 * TICK)
+                    conn = rig.net.current()
+                    kinds = [q[2] for q in rig.console.requests[mark:] if conn is not None and q[1] == conn.cid and q[2] in ("ac_status", "zone_status")]
+                    if kinds[:2] != ["ac_status", "zone_status"]:
+                        ck.violation("no status refresh after a reconnection with a full send queue",
+                                     {"gen": gen, "kind": "refresh", "trigger": {"class": "refresh-queue-full"},
+                                      "failure": f"ten accepted commands were pending when the link came back; refresh requests on the new connection: {kinds}"})
+                    rig.advance(40 * TICK)
+                    mark = len(rig.console.requests)
+                    rig.net.current().transport.peer_reset()
+                    rig.pump()
+                    rig.advance(3 * TICK)
+                    conn = rig.net.current()
+                    kinds = [q[2] for q in rig.console.requests[mark:] if conn is not None and q[1] == conn.cid and q[2] in ("ac_status", "zone_status")]
+                    if kinds[:2] != ["ac_status", "zone_status"]:
+                        ck.violation("no status refresh after an ordinary reconnection that followed a full-queue reconnection",
+                                     {"gen": gen, "kind": "refresh", "trigger": {"class": "refresh-after-queue-full"}, "failure": f"refresh requests: {kinds}"})
+            finally:
+                rig.close()
         # (c) reconnect on the model
         script = [("init",), ("connected",)] + [answer_stimulus(inst, k) for k in range(6)]
         script += [("sub", 2, inst.acs[0].number, 11), ("drop",), ("connected",), ("frame", 0xB0, inst.ac_status_message()),
